@@ -68,4 +68,139 @@ theorem Rep.unique {a : Al} {s s' : Seq} (h : Rep a s) (h' : Rep a s') : s = s' 
   have h2 := List.append_inj_left this (by simp [hl])
   exact (List.map_inj_right (fun _ _ h => by cases h; rfl)).mp h2
 
+/-! ### list plumbing -/
+
+theorem drop_set_self {α : Type} (t : List α) (g : Nat) (x : α) (h : g < t.length) :
+    (t.set g x).drop g = x :: t.drop (g + 1) := by
+  rw [List.set_eq_take_append_cons_drop, if_pos h]
+  rw [List.drop_append_of_le_length (by simp; omega)]
+  rw [List.drop_of_length_le (by simp; omega)]
+  simp
+
+theorem insert_shape {α : Type} (P R T : List α) (x : α) (hT : 0 < T.length) :
+    (((P ++ R ++ T).take (P.length + 1) ++ ((P ++ R ++ T).drop P.length).take R.length ++
+      (P ++ R ++ T).drop (P.length + 1 + R.length)).set P.length x) = P ++ x :: R ++ T.drop 1 := by
+  have e1 : (P ++ R ++ T).take (P.length + 1) = P ++ (R ++ T).take 1 := by
+    rw [List.append_assoc, List.take_append, List.take_of_length_le (by omega)]; simp
+  have e2 : ((P ++ R ++ T).drop P.length).take R.length = R := by
+    rw [List.append_assoc, List.drop_left, List.take_left]
+  have e3 : (P ++ R ++ T).drop (P.length + 1 + R.length) = T.drop 1 := by
+    rw [List.append_assoc, List.drop_append]
+    have : P.length + 1 + R.length - P.length = R.length + 1 := by omega
+    rw [this, List.drop_of_length_le (by omega), List.nil_append, List.drop_append]
+    simp
+  rw [e1, e2, e3]
+  have hl : ((R ++ T).take 1).length = 1 := by simp; omega
+  match h : (R ++ T).take 1, hl with
+  | [y], _ =>
+    simp
+
+theorem delete_shape {α : Type} (P D R T : List α) :
+    (P ++ D ++ R ++ T).take P.length ++ ((P ++ D ++ R ++ T).drop (P.length + D.length)).take R.length ++
+      (P ++ D ++ R ++ T).drop (P.length + R.length) = P ++ R ++ (D ++ R ++ T).drop R.length := by
+  have e1 : (P ++ D ++ R ++ T).take P.length = P := by simp [List.append_assoc]
+  have e2 : ((P ++ D ++ R ++ T).drop (P.length + D.length)).take R.length = R := by
+    have : P ++ D ++ R ++ T = (P ++ D) ++ (R ++ T) := by simp [List.append_assoc]
+    rw [this, List.drop_left' (by simp), List.take_left]
+  have e3 : (P ++ D ++ R ++ T).drop (P.length + R.length) = (D ++ R ++ T).drop R.length := by
+    have : P ++ D ++ R ++ T = P ++ (D ++ R ++ T) := by simp [List.append_assoc]
+    rw [this, List.drop_append]
+    simp
+  rw [e1, e2, e3]
+
+theorem readAll_map (s : Seq) (site : String) : readAll (s.map Slot.val) site = .ok s := by
+  induction s with
+  | nil => rfl
+  | cons e es ih => simp [readAll, ih]
+
+theorem Rep.readRange {a : Al} {s : Seq} (h : Rep a s) (site : String) :
+    readRange a a.length site = .ok s := by
+  obtain ⟨t, ht⟩ := h.slots
+  have hle := h.le
+  unfold Arraylist.readRange
+  rw [if_pos (by rw [← h.size]; exact hle), ht, h.length, List.take_left' (by simp)]
+  exact readAll_map s site
+
+theorem flatMap_releaseOf (es : List Elem) : es.flatMap releaseOf = Seq.nonNull es := by
+  induction es with
+  | nil => rfl
+  | cons e es ih =>
+    cases e <;> simp [releaseOf, Seq.nonNull, List.flatMap_cons] at ih ⊢ <;> exact ih
+
+theorem Rep.releaseLoop {a : Al} {s : Seq} (h : Rep a s) (n : Nat) : ∀ i, i + n ≤ s.length →
+    releaseLoop a i n = .ok (Seq.nonNull ((s.drop i).take n)) := by
+  induction n with
+  | zero => intro i _; simp [Arraylist.releaseLoop, Seq.nonNull]
+  | succ n ih =>
+    intro i hi
+    unfold Arraylist.releaseLoop
+    rw [h.read i (by omega), Outcome.bind_ok, ih (i + 1) (by omega)]
+    simp only [Outcome.bind_ok, Outcome.pure_eq]
+    have : s.drop i = s[i]'(by omega) :: s.drop (i + 1) := List.drop_eq_getElem_cons (by omega)
+    rw [this, List.take_succ_cons]
+    cases hs : s[i]'(by omega) <;> simp [releaseOf, Seq.nonNull]
+
+/-- shape of the allocation after put_idx at or beyond the end -/
+theorem put_shape (S t : List Slot) (g : Nat) (x : Slot) (hg : g < t.length) :
+    ((S ++ t.set g x).take S.length ++ List.replicate g (Slot.val none) ++ (S ++ t.set g x).drop (S.length + g)) =
+      S ++ List.replicate g (Slot.val none) ++ x :: t.drop (g + 1) := by
+  rw [List.take_left, List.drop_append]
+  have : S.length + g - S.length = g := by omega
+  rw [this, List.drop_of_length_le (by omega), List.nil_append]
+  sorry
+
+/-! ### array_list_expand_internal -/
+
+theorem reallocSlots_grow (slots : List Slot) (n : Nat) (h : slots.length ≤ n) :
+    reallocSlots slots n = slots ++ List.replicate (n - slots.length) .uninit := by
+  unfold reallocSlots; rw [List.take_of_length_le h]
+
+/-- array_list_expand_internal(arr, max) for `max ≥ 1`: either the capacity is now at least `max` and the
+contents are untouched, or the call refuses and nothing changed -/
+theorem expand_spec (alloc : Alloc) (a : Al) (s : Seq) (h : Rep a s) (max : Nat)
+    (hmax1 : 1 ≤ max) :
+    ∃ a1 rc, expandInternal alloc a max = .ok (a1, rc) ∧
+      ((rc = 0 ∧ Rep a1 s ∧ max ≤ a1.size ∧ a1.length = a.length ∧ a.size ≤ a1.size ∧
+          (max < a.size → a1 = a)) ∨
+       (rc = -1 ∧ a1 = a ∧ a.size ≤ max ∧
+          (max > maxLen ∨ 2 * a.size > maxLen ∨ ∃ b, alloc b = false))) := by
+  obtain ⟨hG, hH, -⟩ := consts
+  have hcap := h.cap
+  have hhalf := maxLen_lt_half
+  have hdbl := maxLen_double
+  unfold expandInternal
+  by_cases h1 : max < a.size
+  · rw [if_pos h1]
+    exact ⟨a, 0, rfl, Or.inl ⟨rfl, h, by omega, rfl, Nat.le_refl _, fun _ => rfl⟩⟩
+  · rw [if_neg h1, if_neg (by omega)]
+    have hd : a.size <<< alGrowShift = a.size * 2 := by rw [hG, Nat.shiftLeft_eq]
+    rw [hd, ckSize_ok _ _ (by omega)]
+    simp only [Outcome.bind_ok, Outcome.pure_eq]
+    generalize hns : (if a.size * 2 < max then max else a.size * 2) = ns
+    have hns1 : max ≤ ns := by rw [← hns]; split <;> omega
+    have hns2 : ns = max ∨ ns = a.size * 2 := by rw [← hns]; split <;> simp
+    rw [← maxLen_def]
+    by_cases h2 : ns > maxLen
+    · rw [if_pos h2]
+      refine ⟨a, -1, rfl, Or.inr ⟨rfl, rfl, by omega, ?_⟩⟩
+      rcases hns2 with e | e
+      · left; omega
+      · right; left; omega
+    · rw [if_neg h2, ckSize_ok _ _ (mul_ptr_le _ (by omega))]
+      simp only [Outcome.bind_ok]
+      rw [if_neg (mul_ptr_pos _ (by omega))]
+      by_cases h3 : alloc (ns * PTR) = true
+      · rw [if_pos h3]
+        refine ⟨_, 0, rfl, Or.inl ⟨rfl, ?_, by simpa using hns1, rfl, by simp; omega, fun hc => by omega⟩⟩
+        obtain ⟨t, ht⟩ := h.slots
+        have hsz := h.size
+        refine ⟨?_, h.length, ?_, by simp; omega⟩
+        · refine ⟨t ++ List.replicate (ns - a.slots.length) .uninit, ?_⟩
+          simp only []
+          rw [reallocSlots_grow _ _ (by omega), ht, List.append_assoc]
+        · simp only []
+          rw [reallocSlots_grow _ _ (by omega)]; simp; omega
+      · rw [if_neg h3]
+        exact ⟨a, -1, rfl, Or.inr ⟨rfl, rfl, by omega, Or.inr (Or.inr ⟨_, by simpa using h3⟩)⟩⟩
+
 end JsonC.Arraylist
